@@ -25,6 +25,21 @@ def c16_differential(pid, stage, tier, seed, outdir, chk):
             # failure of the harness is indistinguishable here, so it stays a build error
             return m
         per[name] = m.get("transcripts", {})
+        # "comparing against the reference model configured the same way": a clause of any behavioural monitor that
+        # fails in this build is this build not behaving as its configuration says -- reported under C16, named after
+        # the monitor that saw it and the build
+        for v in m["violations"]:
+            if v["property"] != pid:
+                v["clause"] = "%s:%s" % (v["property"], v["clause"])
+                v["tag"] = "%s@%s" % (v["tag"], name)
+                v["property"] = pid
+        vc = {}
+        for k, n in m["violation_counts"].items():
+            pr, cl, tg = k.split("|", 2)
+            if pr != pid:
+                k = "%s|%s:%s|%s@%s" % (pid, pr, cl, tg, name)
+            vc[k] = vc.get(k, 0) + n
+        m["violation_counts"] = vc
         total["stage_extra"]["builds"].append({"build": name, "sessions": m["cases"], "violations": sum(m["violation_counts"].values())})
         chk.merge_merged(total, m)
     full = per.get("feat-111", {})
